@@ -147,34 +147,4 @@ __CPROVER_ensures(digits <= VC_W ==> vc_val(a, digits) == 0)
 __CPROVER_ensures(gk < digits ==> a[gk] == 0)
 ;
 
-/* ---- digit multiply / divide --------------------------------------------------------------------------------------- */
-#ifndef VC_MUL_MAXN
-#define VC_MUL_MAXN RLC_BN_SIZE
-#endif
-dig_t bn_mul1_low(dig_t *c, const dig_t *a, dig_t digit, size_t size)
-__CPROVER_requires(size <= VC_MUL_MAXN)
-__CPROVER_requires(VC_DIGS_FRESH(a, size))
-__CPROVER_requires(VC_LREQ_C2(VC_LSHAPE, c, a, size))
-VC_ASSIGNS(__CPROVER_object_upto(c, size * sizeof(dig_t)))
-__CPROVER_ensures(vc_val(c, size) + VC_CARRY(__CPROVER_return_value, size) == vc_mul_dig(VC_VAL_OLD(a, size), digit))
-;
-
-dig_t bn_mula_low(dig_t *c, const dig_t *a, dig_t digit, size_t size)
-__CPROVER_requires(size <= RLC_BN_SIZE)
-__CPROVER_requires(VC_DIGS_FRESH(a, size))
-__CPROVER_requires(VC_DIGS_FRESH(c, size))
-VC_ASSIGNS(__CPROVER_object_upto(c, size * sizeof(dig_t)))
-__CPROVER_ensures(vc_val(c, size) + VC_CARRY(__CPROVER_return_value, size) == VC_VAL_OLD(c, size) + vc_mul_dig(VC_VAL_OLD(a, size), digit))
-;
-
-void bn_div1_low(dig_t *c, dig_t *d, const dig_t *a, dig_t b, size_t size)
-__CPROVER_requires(size <= RLC_BN_SIZE && b != 0)
-__CPROVER_requires(VC_DIGS_FRESH(a, size))
-__CPROVER_requires(VC_LREQ_C2(VC_LSHAPE, c, a, size))
-__CPROVER_requires(__CPROVER_is_fresh(d, sizeof(dig_t)))
-VC_ASSIGNS(__CPROVER_object_upto(c, size * sizeof(dig_t)), *d)
-__CPROVER_ensures(*d < b)
-__CPROVER_ensures(vc_mul_dig(vc_val(c, size), b) + (vc_wide)*d == VC_VAL_OLD(a, size))
-;
-
 #include "vc_spec_pop.h"
